@@ -30,6 +30,9 @@ type ZCase struct {
 	Other   []byte  `json:"other,omitempty"`
 	Early   bool    `json:"early"` // true: the queries also run once BEFORE the clobbering (hand-outs are re-read afterwards)
 	Spare   int     `json:"spare"` // spare capacity behind the input
+	// Recycle (Decoder entry): the result is closed and the SAME buffer is filled with a variation of the message
+	// (same fields, other payload bytes) and decoded again by the same Decoder; what the first result handed out stays
+	Recycle bool    `json:"recycle,omitempty"`
 	Queries []Query `json:"queries"`
 }
 
@@ -103,6 +106,9 @@ func oracleC10Lazy(c *ZCase) (f *ev.Failure, st zstats) {
 		copy(b, c.In)
 		return b
 	}
+	if c.Recycle && c.Entry == 1 {
+		return oracleC10Recycle(c, def), st
+	}
 	control, cerr := decode(mk())
 	buf := mk()
 	res, err := decode(buf)
@@ -169,6 +175,79 @@ func oracleC10Lazy(c *ZCase) (f *ev.Failure, st zstats) {
 	return nil, st
 }
 
+// variation: the same top-level fields with other payload bytes (fixed-width payloads and every 3rd byte of a
+// length-delimited payload flipped in the lowest bit; keys, varints and lengths untouched).
+func variation(in []byte) []byte {
+	out := append([]byte{}, in...)
+	fs, err := refwire.Walk(in)
+	if err != nil {
+		return out
+	}
+	for _, f := range fs {
+		switch f.WT {
+		case refwire.WTFixed32, refwire.WTFixed64:
+			for i := f.ValStart; i < f.End; i++ {
+				out[i] ^= 0x01
+			}
+		case refwire.WTLen:
+			for i := f.PayloadStart; i < f.End; i += 3 {
+				out[i] ^= 0x01
+			}
+		}
+	}
+	return out
+}
+
+func oracleC10Recycle(c *ZCase, def lazyproto.Def) *ev.Failure {
+	opts := []lazyproto.Option{lazyproto.WithMode(modeOf(0))}
+	if c.MaxBuf >= 0 {
+		opts = append(opts, lazyproto.WithMaxBufferSize(c.MaxBuf))
+	}
+	dec, err := lazyproto.NewDecoder(def, opts...)
+	if err != nil {
+		return nil
+	}
+	buf := make([]byte, len(c.In), len(c.In)+c.Spare)
+	copy(buf, c.In)
+	res, err := dec.Decode(buf)
+	if err != nil {
+		return nil
+	}
+	type handout struct {
+		desc string
+		o    outcome
+	}
+	var hand []handout
+	for _, q := range c.Queries {
+		for _, o := range evalReal(res, q) {
+			if o.reread != nil {
+				hand = append(hand, handout{fmt.Sprintf("%s%v", q.Acc, q.Path), o})
+			}
+		}
+	}
+	_ = res.Close()
+	for round := 0; round < 2; round++ {
+		// the caller recycles its buffer for the next message and decodes it with the same Decoder
+		copy(buf, variation(c.In))
+		if round == 1 {
+			copy(buf, c.In)
+		}
+		res2, err := dec.Decode(buf)
+		if err == nil {
+			for _, q := range c.Queries {
+				_ = evalReal(res2, q)
+			}
+			_ = res2.Close()
+		}
+		for _, h := range hand {
+			if now := h.o.reread(); !now.equal(h.o) {
+				return ev.Failf("C10/lazy-handed-out-value-changed-by-recycled-decode/"+accFamilyName(h.desc), "safe mode: %s was %v when handed out and reads %v after the result was closed, the input buffer refilled and decoded again by the same Decoder (input %.64x def %s)", h.desc, h.o, now, c.In, defString(&c.Def))
+			}
+		}
+	}
+	return nil
+}
+
 func accFamilyName(desc string) string {
 	for i, r := range desc {
 		if r == '[' {
@@ -190,6 +269,7 @@ func genZCase(t *rapid.T) *ZCase {
 	c.Clobber = rapid.IntRange(0, 5).Draw(t, "clobber")
 	c.Early = rapid.Bool().Draw(t, "early")
 	c.Spare = rapid.SampledFrom([]int{0, 0, 1, 16}).Draw(t, "spare")
+	c.Recycle = c.Entry == 1 && rapid.IntRange(0, 2).Draw(t, "recycle") == 0
 	if c.Clobber == 4 {
 		c.Other, _, _ = genLMsg(t, 1)
 	}
@@ -210,7 +290,7 @@ func genZCase(t *rapid.T) *ZCase {
 	return c
 }
 
-const ruleC10Lazy = "lazyproto clause: schema-free well-formed message (as C13: 0..5 numbers, varint / fixed / bytes / packed / nested to depth 3, 0..5 occurrences each), repeated 1..3 times so that scalar tags occur several times, + definition + 1..8 queries (every accessor incl. slice accessors, FieldData / path / helper routes) x entry {Decode function, Decoder object in safe mode, WithMaxBufferSize {unset,0,1,1024}} x clobbering {fill 0xEE, zero, invert, shift by one byte, copy another message over it, truncate + fill} x {accessors first called before | only after the clobbering} x spare capacity {0,1,16}; " +
+const ruleC10Lazy = "lazyproto clause: schema-free well-formed message (as C13: 0..5 numbers, varint / fixed / bytes / packed / nested to depth 3, 0..5 occurrences each), repeated 1..3 times so that scalar tags occur several times, + definition + 1..8 queries (every accessor incl. slice accessors, FieldData / path / helper routes) x entry {Decode function, Decoder object in safe mode, WithMaxBufferSize {unset,0,1,1024}} x clobbering {fill 0xEE, zero, invert, shift by one byte, copy another message over it, truncate + fill} x {accessors first called before | only after the clobbering} x spare capacity {0,1,16}; 1 in 3 Decoder cases instead close the result, refill the SAME buffer with a variation of the message and decode it again with the same Decoder (twice), then re-read what the first result had handed out; " +
 	"oracle (metamorphic): the same bytes decoded from an untouched private copy must answer every query identically, and every slice / string handed out before a clobbering must read the same afterwards; " +
 	"non-trivial = input with >= 2 occurrences of one requested number or >= 1 handed-out slice/string; distinct by case content"
 
@@ -226,6 +306,9 @@ func TestC10Lazy(t *testing.T) {
 		rec.Class(fmt.Sprintf("lazy/entry=%d", c.Entry))
 		rec.Class(fmt.Sprintf("lazy/clobber=%d", c.Clobber))
 		rec.Class(fmt.Sprintf("lazy/early=%v", c.Early))
+		if c.Recycle {
+			rec.Class("lazy/buffer-recycled-for-another-decode-by-the-same-decoder")
+		}
 		fs, _ := refwire.Walk(c.In)
 		cnt := map[int]int{}
 		rep := false
